@@ -34,6 +34,10 @@ func ToKeyValue(mds ...metadata.MD) []*goatorepo.KeyValue {
 func ToMetadata(kvs []*goatorepo.KeyValue) (metadata.MD, error) {
 	md := metadata.MD{}
 	for _, h := range kvs {
+		if h == nil {
+			// a peer on a by-reference transport can hand us a list with a hole in it
+			continue
+		}
 		k := strings.ToLower(h.Key)
 		v := h.Value
 		if strings.HasSuffix(k, "-bin") {
